@@ -264,6 +264,10 @@ func c12Classes() []*c12Class {
 	add("steps[*].with.script (github-script)", "jobs.<job_id>.steps.with", c12Str, c12Step("      - uses: actions/github-script@v7\n        with:\n          script: @@\n")).Prefix = "return "
 	add("steps[*].with.entrypoint", "jobs.<job_id>.steps.with", c12Str, c12Step("      - uses: docker://alpine:3\n        with:\n          entrypoint: @@\n"))
 	add("steps[*].with.args", "jobs.<job_id>.steps.with", c12Str, c12Step("      - uses: docker://alpine:3\n        with:\n          args: @@\n"))
+	// args / entrypoint are parsed into fields of their own whatever kind of action the step uses (round 10)
+	add("steps[*].with.entrypoint (repository action)", "jobs.<job_id>.steps.with", c12Str, c12Step("      - uses: owner/some-docker-action@v1\n        with:\n          entrypoint: @@\n"))
+	add("steps[*].with.args (repository action)", "jobs.<job_id>.steps.with", c12Str, c12Step("      - uses: owner/some-docker-action@v1\n        with:\n          args: @@\n"))
+	add("steps[*].with.args (action in a subdirectory)", "jobs.<job_id>.steps.with", c12Str, c12Step("      - uses: owner/repo/sub/dir@v1\n        with:\n          args: @@\n          p: q\n"))
 	add("steps[*].env.<name>", "jobs.<job_id>.steps.env", c12Str, c12Step("      - run: echo\n        env:\n          FOO: @@\n"))
 	add("steps[*].env (expression)", "jobs.<job_id>.steps.env", c12Any, c12Step("      - run: echo\n        env: @@\n"))
 	add("steps[*].env.<name> (key)", "jobs.<job_id>.steps.env", c12Str, c12Step("      - run: echo\n        env:\n          @@: v\n")).Prefix = "K_"
